@@ -27,14 +27,8 @@ def m_v1_rebuild_first_piece_decoy(case):
     return bool(case.get("kf_first_piece_decoy"))
 
 
-def m_v1_rebuild_pad_entries(case):
-    """KF-C13-2: v1 metafile whose file list contains BEP 47 padding entries."""
-    return bool(case.get("kf_v1_pad_entries"))
-
-
 MATCHERS = {
     "v1_rebuild_first_piece_decoy": m_v1_rebuild_first_piece_decoy,
-    "v1_rebuild_pad_entries": m_v1_rebuild_pad_entries,
 }
 
 
